@@ -348,11 +348,114 @@ pub fn eval(base: &Store, c: &NameCase) -> CaseOut {
     out
 }
 
+// ---------------------------------------------------------------------------------------------------------
+// names stored next to other entries: a hole of deleted slots between two long-named neighbours
+
+#[derive(Clone, Debug, Serialize, Deserialize)]
+pub struct HoleCase {
+    /// units of the name that is created and removed again to leave the hole (its slots: ceil(n / 13) + 1)
+    pub hole_units: u16,
+    /// units of the name then created
+    pub new_units: u16,
+    /// 0 = create_file, 1 = create_dir, 2 = rename of the first neighbour to the name
+    pub mode: u8,
+    pub fat32: bool,
+}
+
+fn unit_name(prefix: &str, n: usize) -> String {
+    let mut s = String::from(prefix);
+    let mut i = 0;
+    while s.chars().count() < n {
+        s.push((b'a' + (i % 26) as u8) as char);
+        i += 1;
+    }
+    s.chars().take(n.max(1)).collect()
+}
+
+/// Every name of the directory - the new one and its neighbours - must be listed character for character afterwards,
+/// in the live session and after a remount.
+pub fn eval_hole(c: &HoleCase) -> CaseOut {
+    let mut out = CaseOut::default();
+    out.hash = run::hash_str(&format!("hole|{}|{}|{}|{}", c.hole_units, c.new_units, c.mode, c.fat32));
+    out.nontrivial = true;
+    let dev = match vol::make_device(&VolCfg::from_preset(if c.fat32 { 12 } else { 1 })) {
+        Ok(d) => d,
+        Err(e) => {
+            out.violation = Some(format!("HARNESS: {}", e));
+            return out;
+        }
+    };
+    let before = "Neighbour in front of the hole.txt".to_string();
+    let behind = "neighbour behind the hole (long name).txt".to_string();
+    let hole = unit_name("h", c.hole_units as usize);
+    let new = unit_name("N", c.new_units as usize);
+    let mode = c.mode % 3;
+    let devh = dev.handle();
+    let (b2, h2, n2, be2) = (before.clone(), hole.clone(), new.clone(), behind.clone());
+    let r = guard(move || -> Result<(Vec<String>, Vec<String>), String> {
+        let clock = Clock::new(500_000_000_000);
+        let s = Session::mount(&devh, &clock, &MountOpts::default()).map_err(|e| format!("mount: {:?}", e))?;
+        let root = s.root();
+        let d = root.create_dir("dir").map_err(|e| format!("mkdir: {:?}", e))?;
+        for n in [&b2, &h2, &be2] {
+            d.create_file(n).map_err(|e| format!("create {:?}: {:?}", n, e))?;
+        }
+        d.remove(&h2).map_err(|e| format!("remove {:?}: {:?}", h2, e))?;
+        match mode {
+            0 => d.create_file(&n2).map(|_| ()),
+            1 => d.create_dir(&n2).map(|_| ()),
+            _ => d.rename(&b2, &d, &n2),
+        }
+        .map_err(|e| format!("creating {:?}: {:?}", n2, ek(&e)))?;
+        let list = |dd: &crate::session::FDir| -> Result<Vec<String>, String> {
+            let mut v = Vec::new();
+            for e in dd.iter() {
+                let e = e.map_err(|e| format!("listing: {:?}", e))?;
+                let n = e.file_name();
+                if n != "." && n != ".." {
+                    v.push(n);
+                }
+            }
+            v.sort();
+            Ok(v)
+        };
+        let live = list(&d)?;
+        drop(d);
+        drop(root);
+        let dev2 = s.dev.handle();
+        s.unmount().map_err(|e| format!("unmount: {:?}", e))?;
+        let s2 = Session::mount(&dev2, &clock, &MountOpts::default()).map_err(|e| format!("remount: {:?}", e))?;
+        let d2 = s2.root().open_dir("dir").map_err(|e| format!("open_dir after remount: {:?}", e))?;
+        let again = list(&d2)?;
+        drop(d2);
+        s2.unmount().map_err(|e| format!("unmount: {:?}", e))?;
+        Ok((live, again))
+    });
+    let mut want: Vec<String> = if mode == 2 { vec![behind.clone(), new.clone()] } else { vec![before.clone(), behind.clone(), new.clone()] };
+    want.sort();
+    match r {
+        Caught::Panic(p) => out.violation = Some(format!("{:?} panicked: {}", c, p)),
+        Caught::Ok(Err(e)) => out.violation = Some(format!("{:?}: {}", c, e)),
+        Caught::Ok(Ok((live, again))) => {
+            if live != want {
+                out.violation = Some(format!("a name of {} units created into a hole left by a name of {} units (mode {}): the directory lists {:?}, expected {:?}", c.new_units, c.hole_units, mode, live, want));
+            } else if again != want {
+                out.violation = Some(format!("a name of {} units created into a hole left by a name of {} units (mode {}): after a remount the directory lists {:?}, expected {:?}", c.new_units, c.hole_units, mode, again, want));
+            }
+        }
+    }
+    out
+}
+
 fn fail(c: &NameCase, m: String) -> Failure {
     Failure { message: m, case: serde_json::to_value(c).unwrap(), kind: "name".into() }
 }
 
 pub fn replay(v: &serde_json::Value) -> Result<Option<String>, String> {
+    if v["kind"].as_str() == Some("hole") {
+        let c: HoleCase = serde_json::from_value(v["case"].clone()).map_err(|e| format!("bad case: {}", e))?;
+        return Ok(eval_hole(&c).violation);
+    }
     if v["kind"].as_str() == Some("reject") || v["case"].get("shape").is_some() {
         let c: RejectCase = serde_json::from_value(v["case"].clone()).map_err(|e| format!("bad case: {}", e))?;
         let base = base_image2()?;
@@ -372,7 +475,7 @@ fn name_with(c: char, pos: u8) -> String {
 }
 
 pub fn run(tier: Tier, seed: u64) -> i32 {
-    let rule = "names through create_file, create_dir and rename on a fresh tiny volume each: every ASCII character alone and embedded; every BMP scalar (quick: one call kind per (character, position), thorough: all three) and 2000 astral ones as first / middle / last character; byte lengths 0..300 built from 1-, 2- and 3-byte characters; random strings; oracle = independent acceptance predicate (1..=255 UTF-8 bytes, documented character set) => rejected names fail with a matching error kind and leave the image byte-identical, accepted names are listed unit for unit, found by name, case variants and alias (read by refdec) and not found by near-misses (folding = std char::to_uppercase); plus every rejected name of a fixed list (empty, 256/300 bytes in 1-, 2-, 3-byte characters, every unacceptable ASCII character alone / embedded / in a long name, U+FFFF) through nine call shapes that create an entry (create in a subdirectory, rename, file and directory moves in every direction): matching error kind and a byte-identical image; non-trivial = accepted non-ASCII or >= 14 units, or rejected; distinct by (name, call kind)";
+    let rule = "names through create_file, create_dir and rename on a fresh tiny volume each: every ASCII character alone and embedded; every BMP scalar (quick: one call kind per (character, position), thorough: all three) and 2000 astral ones as first / middle / last character; byte lengths 0..300 built from 1-, 2- and 3-byte characters; random strings; oracle = independent acceptance predicate (1..=255 UTF-8 bytes, documented character set) => rejected names fail with a matching error kind and leave the image byte-identical, accepted names are listed unit for unit, found by name, case variants and alias (read by refdec) and not found by near-misses (folding = std char::to_uppercase); plus every rejected name of a fixed list (empty, 256/300 bytes in 1-, 2-, 3-byte characters, every unacceptable ASCII character alone / embedded / in a long name, U+FFFF) through nine call shapes that create an entry (create in a subdirectory, rename, file and directory moves in every direction): matching error kind and a byte-identical image; plus names of 20 lengths created (file, directory, rename) into holes left by names of 12 lengths between two long-named neighbours: all three names listed character for character, live and after a remount; non-trivial = accepted non-ASCII or >= 14 units, or rejected; distinct by (name, call kind)";
     let mut rep = Report::new("C15", tier, seed, "exploration", rule);
     rep.assume("'.' and '..' and names containing '/' are outside the domain (reserved entries / path separator)");
     rep.assume("U+FFFF is not part of the accepted set: it is the long-name padding value and cannot be stored");
@@ -527,6 +630,22 @@ pub fn run(tier: Tier, seed: u64) -> i32 {
             |c: &NameCase| eval(base, c),
         );
         rep.add(e);
+    }
+    // every name length next to every hole size: the new name and both neighbours stay listed character for character
+    if !rep.failed() {
+        let lens: Vec<u16> = vec![1, 8, 12, 13, 14, 25, 26, 27, 38, 39, 40, 52, 53, 65, 78, 91, 104, 130, 200, 255];
+        let holes: Vec<u16> = vec![1, 13, 14, 26, 27, 39, 40, 52, 65, 78, 104, 255];
+        let total = (lens.len() * holes.len() * 3 * 2) as u64;
+        let mut b = run::run_indexed("names_created_into_holes_between_neighbours", total, |i, blk| {
+            let fat32 = i % 2 == 1;
+            let i = i as usize / 2;
+            let c = HoleCase { mode: (i % 3) as u8, new_units: lens[(i / 3) % lens.len()], hole_units: holes[i / 3 / lens.len()], fat32 };
+            let out = eval_hole(&c);
+            blk.record(&out, || serde_json::to_value(&c).unwrap());
+            out.violation.map(|m| Failure { message: m, case: serde_json::to_value(&c).unwrap(), kind: "hole".into() })
+        });
+        b.exhaustive = true;
+        rep.add(b);
     }
     rep.finish()
 }
